@@ -5,6 +5,7 @@ the direct recursion: the root with the first pattern, every nested node with th
 children rendered first and then sorted.
 -/
 import DL.Lemmas.Sort
+import DL.Lemmas.ReadBack
 import DL.Model.Descriptor
 namespace DL
 
@@ -90,5 +91,205 @@ theorem C13_canonical_perm (fmt : Fmt) (top : Bool) (m : String) (b b' : β) (fs
 def exSingle : Chain Unit :=
   .mk "D*+" [((), [.inr (.mk "D0" [((), [.inr (.mk "K_S0" [((), [.inl "pi+", .inl "pi-"])]), .inl "pi0"])]), .inl "pi+"])]
 example : Single exSingle = true := by decide
+
+/-! ### reading the descriptor back -/
+
+/-- a particle name the bracket reader can take: not empty, no blank, parentheses balanced and
+    never closing below depth 0 -/
+def goodName (n : String) : Bool :=
+  !n.toList.isEmpty && n.toList.all (· != ' ') && tokOK 0 n.toList && endDepth 0 n.toList == 0
+
+example : goodName "K_1(1270)+" = true ∧ goodName "Upsilon(4S)" = true ∧ goodName "f'_0" = true ∧
+    goodName "anti-K*0" = true ∧ goodName "->" = true ∧ goodName "(c-cbar)" = true ∧
+    goodName "" = false ∧ goodName "a b" = false ∧ goodName "a)(" = false ∧ goodName "K(" = false := by
+  decide
+
+mutual
+  /-- every name of the (single) chain is a good name -/
+  def Good : Chain β → Bool
+    | .mk m modes => match modes with
+      | [(_, fs)] => goodName m && GoodFs fs
+      | _ => goodName m
+  def GoodFs : List (Item β) → Bool
+    | [] => true
+    | .inl s :: r => goodName s && GoodFs r
+    | .inr c :: r => Good c && GoodFs r
+end
+
+mutual
+  /-- the tree a single chain stands for -/
+  def shapeOf : Chain β → Shape
+    | .mk m modes => match modes with
+      | [(_, fs)] => .node m (shapeItems fs)
+      | _ => .leaf m
+  def shapeItems : List (Item β) → List Shape
+    | [] => []
+    | .inl s :: r => .leaf s :: shapeItems r
+    | .inr c :: r => shapeOf c :: shapeItems r
+end
+
+theorem goodName_tok {n : String} (h : goodName n = true) : Tok n.toList := by
+  simp only [goodName, Bool.and_eq_true, Bool.not_eq_true', List.isEmpty_eq_false_iff, beq_iff_eq] at h
+  exact ⟨h.1.1.1, h.1.2, h.2⟩
+
+theorem goodName_noBlank {n : String} (h : goodName n = true) : ∀ c ∈ n.toList, c ≠ ' ' := by
+  simp only [goodName, Bool.and_eq_true, List.all_eq_true, bne_iff_ne] at h
+  exact h.1.1.2
+
+theorem toList_intercalate_sp (l : List String) :
+    (" ".intercalate l).toList = joinSp (l.map String.toList) := by
+  rw [String.toList_intercalate, ← joinSp_eq_intercalate]
+  rfl
+
+/-- the characters of the descriptor of a decaying particle, first pattern -/
+theorem renderSpec_top_toList (m : String) (b : β) (fs : List (Item β)) :
+    (renderSpec Fmt.default true (.mk m [(b, fs)])).toList =
+      bodyL m.toList ((ssort (renderItems Fmt.default fs)).map String.toList) := by
+  have e : " -> ".toList = [' ', '-', '>', ' '] := by decide
+  simp only [renderSpec, render_top, String.toList_append, toList_intercalate_sp, e, bodyL,
+    List.append_assoc, List.cons_append, List.nil_append]
+
+/-- …and second pattern: the same between parentheses -/
+theorem renderSpec_sub_toList (m : String) (b : β) (fs : List (Item β)) :
+    (renderSpec Fmt.default false (.mk m [(b, fs)])).toList =
+      '(' :: ((renderSpec Fmt.default true (.mk m [(b, fs)])).toList ++ [')']) := by
+  have e : " -> ".toList = [' ', '-', '>', ' '] := by decide
+  have e1 : "(".toList = ['('] := by decide
+  have e2 : ")".toList = [')'] := by decide
+  simp only [renderSpec, render_top, render_sub, String.toList_append, e, e1, e2,
+    List.append_assoc, List.cons_append, List.nil_append]
+
+mutual
+  /-- every nested descriptor is one token: balanced, blanks only inside its parentheses -/
+  theorem tok_renderSub : ∀ c : Chain β, Single c = true → Good c = true →
+      Tok (renderSpec Fmt.default false c).toList
+    | .mk m modes, hs, hg => by
+      match modes, hs, hg with
+      | [(b, fs)], hs, hg =>
+        simp only [Single] at hs
+        simp only [Good, Bool.and_eq_true] at hg
+        rw [renderSpec_sub_toList, renderSpec_top_toList]
+        refine tok_wrap _ _ (goodName_tok hg.1) ?_
+        intro t ht
+        obtain ⟨x, hx, rfl⟩ := List.mem_map.1 ht
+        exact tok_renderItems fs hs hg.2 x ((ssort_perm _).mem_iff.1 hx)
+  theorem tok_renderItems : ∀ fs : List (Item β), SingleFs fs = true → GoodFs fs = true →
+      ∀ t ∈ renderItems Fmt.default fs, Tok t.toList
+    | [], _, _ => by simp [renderItems]
+    | .inl s :: r, hs, hg => by
+      simp only [SingleFs] at hs
+      simp only [GoodFs, Bool.and_eq_true] at hg
+      intro t ht
+      simp only [renderItems, List.mem_cons] at ht
+      rcases ht with rfl | ht
+      · exact goodName_tok hg.1
+      · exact tok_renderItems r hs hg.2 t ht
+    | .inr c :: r, hs, hg => by
+      simp only [SingleFs, Bool.and_eq_true] at hs
+      simp only [GoodFs, Bool.and_eq_true] at hg
+      intro t ht
+      simp only [renderItems, List.mem_cons] at ht
+      rcases ht with rfl | ht
+      · exact tok_renderSub c hs.1 hg.1
+      · exact tok_renderItems r hs.2 hg.2 t ht
+end
+
+mutual
+  theorem read_chain : ∀ c : Chain β, Single c = true → Good c = true →
+      ∀ f : Nat, (renderSpec Fmt.default true c).toList.length < f →
+      ∃ s, readBody f (renderSpec Fmt.default true c).toList = some s ∧ s ≈ₛ shapeOf c
+    | .mk m modes, hs, hg, f, hf => by
+      match modes, hs, hg, hf with
+      | [(b, fs)], hs, hg, hf =>
+        simp only [Single] at hs
+        simp only [Good, Bool.and_eq_true] at hg
+        have htoks : ∀ t ∈ (ssort (renderItems Fmt.default fs)).map String.toList, Tok t := by
+          intro t ht
+          obtain ⟨x, hx, rfl⟩ := List.mem_map.1 ht
+          exact tok_renderItems fs hs hg.2 x ((ssort_perm _).mem_iff.1 hx)
+        rw [renderSpec_top_toList] at hf ⊢
+        cases f with
+        | zero => omega
+        | succ f =>
+          rw [readBody_succ, splitTop_body _ _ (goodName_tok hg.1) htoks]
+          refine ⟨_, by simp only [if_true]; rfl, ?_⟩
+          simp only [String.ofList_toList, List.map_map, shapeOf]
+          refine Shape.Equiv.trans (Shape.Equiv.perm m ((ssort_perm _).map _)) ?_
+          refine read_items fs hs hg.2 f ?_ m
+          intro t ht
+          have h1 : t.toList ∈ (ssort (renderItems Fmt.default fs)).map String.toList :=
+            List.mem_map.2 ⟨t, (ssort_perm _).mem_iff.2 ht, rfl⟩
+          have h2 := length_le_joinSp _ _ h1
+          simp only [bodyL, List.length_append, List.length_cons] at hf
+          omega
+  theorem read_items : ∀ fs : List (Item β), SingleFs fs = true → GoodFs fs = true →
+      ∀ f : Nat, (∀ t ∈ renderItems Fmt.default fs, t.toList.length ≤ f) → ∀ m : String,
+      Shape.node m ((renderItems Fmt.default fs).map (readItem f ∘ String.toList)) ≈ₛ
+        Shape.node m (shapeItems fs)
+    | [], _, _, _, _, m => by simp only [renderItems, shapeItems, List.map_nil]; exact .refl _
+    | .inl s :: r, hs, hg, f, hf, m => by
+      simp only [SingleFs] at hs
+      simp only [GoodFs, Bool.and_eq_true] at hg
+      simp only [renderItems, shapeItems, List.map_cons, Function.comp]
+      rw [readItem_noBlank f _ (goodName_noBlank hg.1), String.ofList_toList]
+      refine .cons m (.refl _) ?_
+      exact read_items r hs hg.2 f (fun t ht => hf t (by simp [renderItems, ht])) m
+    | .inr c :: r, hs, hg, f, hf, m => by
+      simp only [SingleFs, Bool.and_eq_true] at hs
+      simp only [GoodFs, Bool.and_eq_true] at hg
+      simp only [renderItems, shapeItems, List.map_cons, Function.comp]
+      have hlen := hf (renderSpec Fmt.default false c) (by simp [renderItems])
+      have hrest := read_items r hs.2 hg.2 f (fun t ht => hf t (by simp [renderItems, ht])) m
+      match c, hs, hg, hlen with
+      | .mk mc [(b, fs')], hs, hg, hlen =>
+        rw [renderSpec_sub_toList] at hlen ⊢
+        obtain ⟨s, hs1, hs2⟩ := read_chain (.mk mc [(b, fs')]) hs.1 hg.1 f (by
+          simp only [List.length_cons, List.length_append, List.length_nil] at hlen; omega)
+        have : readItem f ('(' :: ((renderSpec Fmt.default true (Chain.mk mc [(b, fs')])).toList ++ [')'])) = s := by
+          simp [readItem, unparen_wrap, hs1]
+        rw [this]
+        exact .cons m hs2 hrest
+      | .mk mc [], hs, _, _ => simp [Single] at hs
+      | .mk mc (_ :: _ :: _), hs, _, _ => simp [Single] at hs
+end
+
+/-- non-vacuity: the chain of the example has good names, and its descriptor reads back -/
+example : Good exSingle = true := by decide
+example : readDescriptor "D*+ -> (D0 -> (K_S0 -> pi+ pi-) pi0) pi+".toList =
+    some (.node "D*+" [.node "D0" [.node "K_S0" [.leaf "pi+", .leaf "pi-"], .leaf "pi0"], .leaf "pi+"]) := by
+  rfl
+
+/-- C13 (read-back): the descriptor of a single chain with good names, read back by matching its
+    brackets, is the tree of the chain, up to the order of the daughters at every level -/
+theorem C13_readback (c : Chain β) (hs : Single c = true) (hg : Good c = true) :
+    ∃ s, readDescriptor (renderSpec Fmt.default true c).toList = some s ∧ s ≈ₛ shapeOf c :=
+  read_chain c hs hg _ (Nat.lt_succ_self _)
+
+/-- the same for the string `DecayChain.to_string` returns -/
+theorem C13_readback_toString (c : Chain β) (hs : Single c = true) (hg : Good c = true) :
+    ∃ d s, chainToString Fmt.default c = some d ∧ readDescriptor d.toList = some s ∧ s ≈ₛ shapeOf c := by
+  obtain ⟨s, h1, h2⟩ := C13_readback c hs hg
+  exact ⟨_, s, C13_render Fmt.default c hs, h1, h2⟩
+
+/-- C13 (injectivity): two single chains with good names and the same descriptor are the same
+    tree up to the order of the daughters -/
+theorem C13_injective (c₁ c₂ : Chain β) (hs₁ : Single c₁ = true) (hg₁ : Good c₁ = true)
+    (hs₂ : Single c₂ = true) (hg₂ : Good c₂ = true)
+    (h : chainToString Fmt.default c₁ = chainToString Fmt.default c₂) : shapeOf c₁ ≈ₛ shapeOf c₂ := by
+  rw [C13_render _ c₁ hs₁, C13_render _ c₂ hs₂] at h
+  have h := Option.some.inj h
+  obtain ⟨s₁, r₁, e₁⟩ := C13_readback c₁ hs₁ hg₁
+  obtain ⟨s₂, r₂, e₂⟩ := C13_readback c₂ hs₂ hg₂
+  rw [h, r₂] at r₁
+  cases r₁
+  exact e₁.symm.trans e₂
+
+/-- in particular: the same mother, and the same decaying and final-state names with multiplicity -/
+theorem C13_injective_labels (c₁ c₂ : Chain β) (hs₁ : Single c₁ = true) (hg₁ : Good c₁ = true)
+    (hs₂ : Single c₂ = true) (hg₂ : Good c₂ = true)
+    (h : chainToString Fmt.default c₁ = chainToString Fmt.default c₂) :
+    (shapeOf c₁).root = (shapeOf c₂).root ∧ (shapeOf c₁).labels.Perm (shapeOf c₂).labels :=
+  let r := (C13_injective c₁ c₂ hs₁ hg₁ hs₂ hg₂ h).sound
+  ⟨r.1, r.2.2⟩
 
 end DL
